@@ -740,6 +740,73 @@ func c20engine(out *rec.Out, builder, file string, k int, conc bool, stats map[s
 	stats["cases"]++
 }
 
+// c20snapConc: per round one fresh generator; one goroutine draws 40 ids from it while another takes snapshots of it the
+// whole time (an instance persisted by a background saver while it runs). When both have stopped a last, quiet snapshot is
+// taken, a generator is restored from it and draws 4 ids at once: none of them may be an id the original has issued.
+func c20snapConc(out *rec.Out, rounds int, stats map[string]int) {
+	out.Begin("c20", "snap_conc", 1, 44, rounds)
+	defer out.End()
+	env := c20newEnv()
+	defer env.close()
+	dups, first, total := 0, "-", 0
+	c20guard(out, func() {
+		for r := 0; r < rounds; r++ {
+			g, err := id.GetSno().NewIdGenerator(env.ctx, env.tracer)
+			if err != nil {
+				out.Line("generr %s", strings.ReplaceAll(err.Error(), " ", "_"))
+				return
+			}
+			seen := map[string]bool{}
+			stop := make(chan struct{})
+			var wg sync.WaitGroup
+			wg.Add(1)
+			go func() {
+				defer wg.Done()
+				for {
+					select {
+					case <-stop:
+						return
+					default:
+						g.Snapshot()
+					}
+				}
+			}()
+			for i := 0; i < 40; i++ {
+				seen[g.New().String()] = true
+				if i%8 == 7 {
+					runtime.Gosched()
+				}
+			}
+			close(stop)
+			wg.Wait()
+			b, err := g.Snapshot()
+			if err != nil {
+				out.Line("generr snapshot")
+				return
+			}
+			ng, err := id.GetSno().RestoreIdGenerator(env.ctx, b, env.tracer)
+			if err != nil {
+				out.Line("generr %s", strings.ReplaceAll(err.Error(), " ", "_"))
+				return
+			}
+			for i := 0; i < 4; i++ {
+				x := ng.New().String()
+				if seen[x] {
+					dups++
+					if first == "-" {
+						first = x
+					}
+				}
+				seen[x] = true
+			}
+			total += 44
+		}
+	})
+	out.Line("stress snapconc goroutines 1 each 44 gens %d total %d dups %d first %s", rounds, total, dups, first)
+	stats["cases"]++
+	stats["snapshots_taken_while_drawing_rounds"] += rounds
+}
+
 // c20engineCtx: k instances of one testdata process created ONE AFTER THE OTHER, each bound to a context of its own that
 // is cancelled as soon as the instance has been started and its ids have been seen (what a server does per request). An
 // instance that is over gives nothing of its identifiers to the ones that follow.
@@ -880,6 +947,11 @@ func c20(out *rec.Out, rng *rec.Rng, tier string, stats map[string]int) {
 		kc = 6000
 	}
 	c20engineCtx(out, "task.bpmn", kc, stats)
+	rs := 400
+	if thorough {
+		rs = 3000
+	}
+	c20snapConc(out, rs, stats)
 	// 6. LAST (it uses up the process-wide sno partition pool): one long-lived generator and, one after the other, a
 	// little more than 2^16 short-lived ones (one generator per process instance in a long-running program)
 	c20manyGens(out, 1<<16+16, stats)
